@@ -65,7 +65,9 @@ def brief(res, n=600):
 
 
 def tmp_path(name):
-    d = os.environ.get('VERIF_TMP', '/tmp/verif-%d' % os.getpid())
+    """Scratch file private to this process, below a per-run directory that mc/main.py removes at exit."""
+    root = os.environ.get('VERIF_TMP_ROOT') or '/tmp/verif-run-%d' % os.getpid()
+    d = os.path.join(root, str(os.getpid()))
     os.makedirs(d, exist_ok=True)
     return os.path.join(d, name)
 
